@@ -599,10 +599,10 @@ class Session:
         # history of direct evaluations that never visited the defaults is not constrained)
         if real:
             ctx.probe('restart with a real algorithm')
-            fmax = self._fref([self.xstar[n] for n in self.names])
-            got = float(r.data.logLike)
-            if not abs(got - fmax) <= 1e-5 * max(1.0, abs(fmax)):
-                ctx.violate('I15.4L', f'restarted estimation ended at LL {got!r}, the maximum is {fmax!r}')
+            # the property promises a restart that begins at the saved values (I15.4) and succeeds (I15.4.raise); where a real
+            # algorithm then stops is its tolerance's and its bounds' business: a former clause I15.4L ("ends at the maximum
+            # within 1e-5") reported a stop 6e-5 (relative) below the maximum - a false alarm - and was removed (DESIGN section 11)
+            float(r.data.logLike)
 
     # -- operations -------------------------------------------------------------------
     def _estimate(self, algo, boot, script, oracle='I15.5', quick=False):
